@@ -303,6 +303,29 @@ static void c17() {
     CNT.add("c17.inc15_cycle_len", steps);
     if (steps != 129) { J j; j.num("cycle", steps); witness("c17:inc15-cycle", "increment15Minutes cycle from -16:00 is not 129 steps", j); }
   }
+  // local_date_mutation on every date of the supported range: each field stays inside its interval (day within the
+  // month's real length) and the result is the calendar successor / predecessor
+  {
+    int64_t first = days_from_civil(1873, 1, 1), last = days_from_civil(2127, 12, 31);
+    for (int64_t z = first; z < last; z++) {
+      int64_t y, y2; unsigned m, d, m2, d2; civil_from_days(z, y, m, d); civil_from_days(z + 1, y2, m2, d2);
+      LocalDate a = LocalDate::forComponents((int16_t) y, (uint8_t) m, (uint8_t) d);
+      local_date_mutation::incrementOneDay(a);
+      LocalDate b = LocalDate::forComponents((int16_t) y2, (uint8_t) m2, (uint8_t) d2);
+      local_date_mutation::decrementOneDay(b);
+      CNT.add("c17.date_mutation_cases", 2);
+      bool inA = a.month() >= 1 && a.month() <= 12 && a.day() >= 1 && a.day() <= oracle_dim(a.year(), a.month());
+      bool inB = b.month() >= 1 && b.month() <= 12 && b.day() >= 1 && b.day() <= oracle_dim(b.year(), b.month());
+      if (!inA || a.year() != y2 || a.month() != m2 || a.day() != d2) {
+        J j; j.str("from", fmtDate(y, m, d)).num("to_year", a.year()).num("to_month", a.month()).num("to_day", a.day());
+        witness(inA ? "c17:date-incrementOneDay-succ" : "c17:date-incrementOneDay-range", inA ? "incrementOneDay is not the next calendar day" : "incrementOneDay leaves a field outside its interval (a day the month does not have)", j);
+      }
+      if (!inB || b.year() != y || b.month() != m || b.day() != d) {
+        J j; j.str("from", fmtDate(y2, m2, d2)).num("to_year", b.year()).num("to_month", b.month()).num("to_day", b.day());
+        witness(inB ? "c17:date-decrementOneDay-pred" : "c17:date-decrementOneDay-range", inB ? "decrementOneDay is not the previous calendar day" : "decrementOneDay leaves a field outside its interval", j);
+      }
+    }
+  }
   // ZonedDateTime increment helpers from every byte value
   TimeZone utc = TimeZone::forUtc();
   for (unsigned v = 0; v < 256; v++) {
